@@ -269,7 +269,7 @@ def shared_cases(seed, tier, boost=1):
             cfg.update(bad=None, base='', crumbs=False, localtoc=False)
             out.append(('split-levels', {'doc': doc, 'cfg': cfg}))
     # 2. structured random stream: everything varies
-    for i in range((400 if quick else 4000) * boost):
+    for i in range((400 if quick else 3000) * boost):
         doc = gen_doc(rng, label_style='punct' if rng.random() < 0.15 else 'plain')
         out.append(('random', {'doc': doc, 'cfg': gen_cfg(rng)}))
     # 3. single-file templates
